@@ -78,7 +78,7 @@ theorem Inv.ofCore {s s1 s' : IState} {k : Nat} {st ne : Bool} {L : Nat} (hi : I
 theorem Inv.rel {s : IState} (h : Inv s) (st : Bool) (hst : st = true → measure s < U64 - 1) :
     Rel 0 st false (clen s.mem) s s :=
   { code := rfl, origLen := rfl, jt := rfl, isEof := rfl, isEofInit := rfl, spec := rfl, env := rfl, input := rfl,
-    ck := rfl, cks := rfl, stack := h.stack, memWF := h.memWF, memCk := h.memCk, memL := Nat.le_refl _,
+    ck := rfl, cks := rfl, stack := h.stack, memWF := h.memWF, memCk := h.memCk, memL := Nat.le_refl _, grow := Nat.le_refl _,
     rdLen := h.rdLen, inLen := h.inLen, m0 := h.meas, meas := Nat.le_of_eq (Nat.add_zero _),
     strict := hst, safe := h.safe, nonempty := fun e => (by cases e), pc := rfl }
 
@@ -90,9 +90,10 @@ theorem Inv.ofRel {s s' : IState} {k : Nat} {st ne : Bool} {L : Nat} (hi : Inv s
 
 /-- the outcome of one resolved instruction, relative to the state before it -/
 inductive StepOk (s : IState) : Done → Prop
-  | next {s' : IState} (hi : Inv s') (hm : measure s' + 1 ≤ measure s) : StepOk s (.next s')
+  | next {s' : IState} (hi : Inv s') (hm : measure s' + 1 ≤ measure s)
+      (hc : s'.code = s.code ∧ s'.origLen = s.origLen) : StepOk s (.next s')
   | action {a : Action} {s' : IState} (hi : Inv s') (hm : measure s' + a.gasLimit + 1 ≤ measure s)
-      (hr : RetOk a (clen s'.mem)) : StepOk s (.action a s')
+      (hr : RetOk a (clen s'.mem)) (hc : s'.code = s.code ∧ s'.origLen = s.origLen) : StepOk s (.action a s')
   | halt {r : IResult} {o : List Nat} {s' : IState} (hm : measure s' ≤ measure s) : StepOk s (.halt r o s')
 
 inductive StepGood (s : IState) : Outcome → Prop
@@ -107,9 +108,11 @@ theorem stepOk_of_doneGood {s : IState} (hi : Inv s) {d : Done}
   cases hd with
   | next hn =>
     refine .next (hi.ofCore (s1 := { s with pc := s.pc + 1 }) rfl rfl rfl rfl rfl rfl rfl hn.core hn.pcOk) ?_
+      ⟨hn.core.code, hn.core.origLen⟩
     have := hn.core.meas; rw [hmeq] at this; exact this
   | action hn =>
     refine .action (hi.ofCore (s1 := { s with pc := s.pc + 1 }) rfl rfl rfl rfl rfl rfl rfl hn.core hn.pcOk) ?_ hn.ret
+      ⟨hn.core.code, hn.core.origLen⟩
     have := hn.gas; rw [hmeq] at this; exact this
   | halt hn =>
     have h2 := hn.meas
@@ -141,5 +144,235 @@ theorem step_good {s : IState} (hi : Inv s) : StepGood s (step s) := by
     injection h0 with h0
     rw [h0, decode_zero]
     exact .pure (.halt (Nat.le_refl _))
+
+/-! ## re-entry of a child result -/
+
+/-- what the frame machine hands back for an action: at most the gas it was given, never `FatalExternalError`
+(the EVM loop leaves through `take_error()?` before `insert_*_outcome` in that case), output a Rust `Bytes` -/
+structure ChildOk (a : Action) (c : ChildResult) : Prop where
+  gas : c.gasRemaining ≤ a.gasLimit
+  notFatal : c.result ≠ .FatalExternalError
+  outLen : c.output.length ≤ Memory.ISIZE_MAX
+
+/-- invariant, a bound on the measure, same code as `s` -/
+def Mid (B : Nat) (s x : IState) : Prop := Inv x ∧ measure x ≤ B ∧ x.code = s.code ∧ x.origLen = s.origLen
+
+theorem sat_conv {α} {e : Exec α} {H H' : IState → Prop} {Q Q' : α → IState → Prop}
+    (h : Exec.Sat e H Q) (hH : ∀ x, H x → H' x) (hQ : ∀ a x, Q a x → Q' a x) : Exec.Sat e H' Q' := by
+  cases h with
+  | ok h => exact .ok (hQ _ _ h)
+  | halt h => exact .halt (hH _ h)
+
+theorem modifyS_sat {H : IState → Prop} (f : IState → IState) (s : IState) :
+    Exec.Sat (modifyS f s) H (fun _ x => x = f s) := .ok rfl
+
+theorem mid_push {B : Nat} {s0 s : IState} (h : Mid B s0 s) (hB : B ≤ U64 - 2) (v : Nat) :
+    Exec.Sat (push v s) (fun x => measure x ≤ B) (fun _ x => Mid B s0 x) := by
+  have hU := U64_val
+  have hst : measure s < U64 - 1 := by have := h.2.1; omega
+  refine sat_conv (push_sat (h.1.rel true (fun _ => hst)) v) ?_ ?_
+  · intro x hx; have := hx.meas; have := h.2.1; omega
+  · intro _ x hx
+    exact ⟨h.1.ofRel hx, by have := hx.meas; have := h.2.1; omega, hx.code.trans h.2.2.1,
+      hx.origLen.trans h.2.2.2⟩
+
+theorem mid_memSet {B : Nat} {s0 s : IState} (h : Mid B s0 s) (off : Nat) (val : List Nat)
+    (hin : val = [] ∨ off + val.length ≤ clen s.mem) :
+    Exec.Sat (liftMemWrite (fun m => Memory.set m off val) s) (fun x => measure x ≤ B)
+      (fun _ x => Mid B s0 x) := by
+  refine sat_conv (memSet_sat (h.1.rel false (fun e => by cases e)) off val hin) ?_ ?_
+  · intro x hx; have := hx.meas; have := h.2.1; omega
+  · intro _ x hx
+    exact ⟨h.1.ofRel hx, by have := hx.meas; have := h.2.1; omega, hx.code.trans h.2.2.1,
+      hx.origLen.trans h.2.2.2⟩
+
+/-- giving gas back: `erase_cost(returned)` (+ `record_refund`) keeps the invariant while the total stays below
+`u64::MAX` -/
+theorem Inv.gasBack {s : IState} (hi : Inv s) (g' : Gas.Gas) (ret : Nat)
+    (hg : g'.remaining = U64ops.wadd s.gas.remaining ret) (hm : measure s + ret ≤ U64 - 2) :
+    Inv { s with gas := g' } ∧ measure { s with gas := g' } = measure s + ret := by
+  have hU := U64_val
+  have hms : measure s = s.gas.remaining + mcost s := rfl
+  have hmeq : measure { s with gas := g' } = g'.remaining + mcost s := rfl
+  have hw : U64ops.wadd s.gas.remaining ret = s.gas.remaining + ret :=
+    Proofs.Gas.wadd_of_lt _ _ (by omega)
+  have hm' : measure { s with gas := g' } = measure s + ret := by rw [hmeq, hg, hw, hms]; omega
+  refine ⟨?_, hm'⟩
+  exact
+    { codeLen := hi.codeLen, pad := hi.pad, jt := hi.jt, legacy := hi.legacy, notInit := hi.notInit,
+      envOk := hi.envOk, origLe := hi.origLe, pc := hi.pc, stack := hi.stack, memWF := hi.memWF,
+      memCk := hi.memCk, rdLen := hi.rdLen, inLen := hi.inLen,
+      meas := by rw [hm']; omega
+      safe := Or.inl (by rw [hm']; omega) }
+
+theorem Inv.setReturnData {s : IState} (hi : Inv s) (rd : List Nat) (h : rd.length ≤ Memory.ISIZE_MAX) :
+    Inv { s with returnData := rd } :=
+  { codeLen := hi.codeLen, pad := hi.pad, jt := hi.jt, legacy := hi.legacy, notInit := hi.notInit,
+    envOk := hi.envOk, origLe := hi.origLe, pc := hi.pc, stack := hi.stack, memWF := hi.memWF,
+    memCk := hi.memCk, rdLen := h, inLen := hi.inLen, meas := hi.meas, safe := hi.safe }
+
+theorem insertCall_sat {s : IState} {B gl : Nat} (hi : Inv s) (hB1 : measure s + gl ≤ B) (hB2 : B ≤ U64 - 2)
+    (retStart retEnd : Nat) (c : ChildResult)
+    (hret : retEnd - retStart = 0 ∨ (retStart ≤ retEnd ∧ retEnd ≤ clen s.mem))
+    (hg : c.gasRemaining ≤ gl) (hnf : c.result ≠ .FatalExternalError)
+    (hol : c.output.length ≤ Memory.ISIZE_MAX) :
+    Exec.Sat (insertCallOutcome retStart retEnd c s) (fun x => measure x ≤ B) (fun _ x => Mid B s x) := by
+  unfold insertCallOutcome
+  refine sat_bind (modifyS_sat _ s) ?_
+  rintro _ s1 rfl
+  have hi1 := hi.setReturnData c.output hol
+  have hm1 : measure { s with returnData := c.output } = measure s := rfl
+  have hval : (c.output.take (min (retEnd - retStart) c.output.length)) = []
+      ∨ retStart + (c.output.take (min (retEnd - retStart) c.output.length)).length ≤ clen s.mem := by
+    rcases hret with h0 | ⟨h1, h2⟩
+    · left; rw [h0]; simp
+    · right; simp only [List.length_take]; omega
+  refine sat_bind (m := getS) (Q := fun a x => { s with returnData := c.output } = a ∧ { s with returnData := c.output } = x) (.ok ⟨rfl, rfl⟩) ?_
+  rintro _ _ ⟨rfl, rfl⟩
+  dsimp only []
+  by_cases hok : c.result.isOk = true
+  · -- return_ok!
+    rw [if_pos hok]
+    refine sat_bind (modifyS_sat _ _) ?_
+    rintro _ s2 rfl
+    obtain ⟨hi2, hm2⟩ := hi1.gasBack
+      (Gas.recordRefund (Gas.eraseCost s.gas c.gasRemaining) c.gasRefunded) c.gasRemaining rfl
+      (by rw [hm1]; omega)
+    have hmid : Mid B s _ := ⟨hi2, by rw [hm2, hm1]; omega, rfl, rfl⟩
+    refine sat_bind (mid_memSet hmid retStart _ hval) ?_
+    intro _ s3 h3
+    exact mid_push h3 hB2 _
+  · rw [if_neg hok]
+    by_cases hrev : c.result.isRevert = true
+    · -- return_revert!
+      rw [if_pos hrev]
+      refine sat_bind (modifyS_sat _ _) ?_
+      rintro _ s2 rfl
+      obtain ⟨hi2, hm2⟩ := hi1.gasBack (Gas.eraseCost s.gas c.gasRemaining) c.gasRemaining rfl
+        (by rw [hm1]; omega)
+      have hmid : Mid B s _ := ⟨hi2, by rw [hm2, hm1]; omega, rfl, rfl⟩
+      refine sat_bind (mid_memSet hmid retStart _ hval) ?_
+      intro _ s3 h3
+      exact mid_push h3 hB2 _
+    · rw [if_neg hrev, if_neg hnf]
+      exact mid_push (s0 := s) ⟨hi1, by rw [hm1]; omega, rfl, rfl⟩ hB2 _
+
+theorem insertCreate_sat {s : IState} {B gl : Nat} (hi : Inv s) (hB1 : measure s + gl ≤ B) (hB2 : B ≤ U64 - 2)
+    (c : ChildResult) (hg : c.gasRemaining ≤ gl) (hnf : c.result ≠ .FatalExternalError)
+    (hol : c.output.length ≤ Memory.ISIZE_MAX) :
+    Exec.Sat (insertCreateOutcome c s) (fun x => measure x ≤ B) (fun _ x => Mid B s x) := by
+  unfold insertCreateOutcome
+  refine sat_bind (modifyS_sat _ s) ?_
+  rintro _ s1 rfl
+  have hi1 : Inv { s with returnData := if c.result.isRevert = true then c.output else [] } :=
+    hi.setReturnData _ (by split <;> simp [hol])
+  have hm1 : measure { s with returnData := if c.result.isRevert = true then c.output else [] } = measure s := rfl
+  have hmid1 : Mid (B - gl) s { s with returnData := if c.result.isRevert = true then c.output else [] } :=
+    ⟨hi1, by rw [hm1]; omega, rfl, rfl⟩
+  by_cases hok : c.result.isOk = true
+  · rw [if_pos hok]
+    refine sat_bind (sat_conv (mid_push hmid1 (by omega) _) (fun x hx => by omega) (fun _ _ hq => hq)) ?_
+    intro _ s2 h2
+    refine sat_conv (modifyS_sat (H := fun x => measure x ≤ B) _ s2) (fun _ hx => hx) ?_
+    rintro _ s3 rfl
+    obtain ⟨hi3, hm3⟩ := h2.1.gasBack
+      (Gas.recordRefund (Gas.eraseCost s2.gas c.gasRemaining) c.gasRefunded) c.gasRemaining rfl
+      (by have := h2.2.1; omega)
+    exact ⟨hi3, by rw [hm3]; have := h2.2.1; omega, h2.2.2.1, h2.2.2.2⟩
+  · rw [if_neg hok]
+    by_cases hrev : c.result.isRevert = true
+    · rw [if_pos hrev]
+      refine sat_bind (sat_conv (mid_push hmid1 (by omega) _) (fun x hx => by omega) (fun _ _ hq => hq)) ?_
+      intro _ s2 h2
+      refine sat_conv (modifyS_sat (H := fun x => measure x ≤ B) _ s2) (fun _ hx => hx) ?_
+      rintro _ s3 rfl
+      obtain ⟨hi3, hm3⟩ := h2.1.gasBack (Gas.eraseCost s2.gas c.gasRemaining) c.gasRemaining rfl
+        (by have := h2.2.1; omega)
+      exact ⟨hi3, by rw [hm3]; have := h2.2.1; omega, h2.2.2.1, h2.2.2.2⟩
+    · rw [if_neg hrev, if_neg hnf]
+      exact sat_conv (mid_push hmid1 (by omega) _) (fun x hx => by omega)
+        (fun _ x hq => ⟨hq.1, by have := hq.2.1; omega, hq.2.2.1, hq.2.2.2⟩)
+
+theorem insertOutcome_sat {s : IState} {B : Nat} (a : Action) (c : ChildResult) (hi : Inv s)
+    (hB1 : measure s + a.gasLimit ≤ B) (hB2 : B ≤ U64 - 2) (hret : RetOk a (clen s.mem)) (hc : ChildOk a c) :
+    Exec.Sat (insertOutcome a c s) (fun x => measure x ≤ B) (fun _ x => Mid B s x) := by
+  cases a with
+  | call i => exact insertCall_sat hi hB1 hB2 i.retStart i.retEnd c hret hc.gas hc.notFatal hc.outLen
+  | create i => exact insertCreate_sat hi hB1 hB2 c hc.gas hc.notFatal hc.outLen
+
+/-! ## the loop -/
+
+/-- the oracle answers like Rust values and like a frame machine -/
+structure OracleOk {η : Type} (o : Oracle η) : Prop where
+  host : ∀ h op, RespOk (o.host h op).1
+  child : ∀ h a, ChildOk a (o.child h a).1
+
+/-- a finished run: a defined result, within the gas the frame had -/
+def RunOk (s : IState) : RunResult → Prop
+  | .done _ _ s' => measure s' ≤ measure s
+  | .fault _ => False
+  | .outOfFuel => False
+
+theorem continueWith_ok {η : Type} (o : Oracle η) (ho : OracleOk o) (n : Nat) (s : IState) (d : Done) (h : η)
+    (hd : StepOk s d) (hfuel : measure s < n + 1) (hs : measure s ≤ U64 - 1)
+    (ih : ∀ (s' : IState) (h' : η), Inv s' → measure s' < n → RunOk s' (run o n s' h').1) :
+    RunOk s (continueWith o (run o n) d h).1 := by
+  cases hd with
+  | next hi hm _ =>
+    have := ih _ h hi (by omega)
+    show RunOk s (run o n _ h).1
+    revert this
+    cases (run o n _ h).1 with
+    | done r out s'' => intro this; show measure s'' ≤ measure s; have : measure s'' ≤ _ := this; omega
+    | fault f => intro this; exact this
+    | outOfFuel => intro this; exact this
+  | @action a s' hi hm hr _ =>
+    have hc := ho.child h a
+    have hins := insertOutcome_sat (B := measure s - 1) a (o.child h a).1 hi (by omega) (by omega) hr hc
+    show RunOk s (match insertOutcome a (o.child h a).1 s' with
+      | .ok _ s'' => run o n s'' (o.child h a).2
+      | .halt r out s'' => (RunResult.done r out s'', (o.child h a).2)
+      | .fault f => (RunResult.fault f, (o.child h a).2)).1
+    cases hx : insertOutcome a (o.child h a).1 s' with
+    | ok u s'' =>
+      rw [hx] at hins
+      have hmid := sat_ok_inv hins
+      have := ih s'' (o.child h a).2 hmid.1 (by have := hmid.2.1; omega)
+      show RunOk s (run o n s'' (o.child h a).2).1
+      revert this
+      cases (run o n s'' (o.child h a).2).1 with
+      | done r out s3 =>
+        intro this; show measure s3 ≤ measure s
+        have h1 : measure s3 ≤ measure s'' := this
+        have := hmid.2.1; omega
+      | fault f => intro this; exact this
+      | outOfFuel => intro this; exact this
+    | halt r out s'' =>
+      rw [hx] at hins
+      have := sat_halt_inv hins
+      show measure s'' ≤ measure s
+      omega
+    | fault f => rw [hx] at hins; exact (sat_fault_inv hins).elim
+  | halt hm => exact hm
+
+/-- `no_panic_legacy`, `run_terminates`, "within the gas limit": with `measure + 1` instructions of fuel the loop
+ends with a defined result, never a fault, never out of fuel, and the final state's gas (plus paid-for memory) is
+at most what the frame started with -/
+theorem run_ok {η : Type} (o : Oracle η) (ho : OracleOk o) :
+    ∀ (fuel : Nat) (s : IState) (h : η), Inv s → measure s < fuel → RunOk s (run o fuel s h).1 := by
+  intro fuel
+  induction fuel with
+  | zero => intro s h _ hf; omega
+  | succ n ih =>
+    intro s h hi hf
+    have hg := step_good hi
+    show RunOk s (match step s with
+      | .pure d => continueWith o (run o n) d h
+      | .host op k => continueWith o (run o n) (k (o.host h op).1) (o.host h op).2).1
+    generalize step s = st at hg
+    cases hg with
+    | pure hd => exact continueWith_ok o ho n s _ h hd hf hi.meas ih
+    | host hk =>
+      exact continueWith_ok o ho n s _ _ (hk _ (ho.host h _)) hf hi.meas ih
 
 end Revm.Proofs.Interp
